@@ -55,7 +55,8 @@ EXPECTED_PROBES = ['setup_checked', 'r4_checked', 'completed_strict_subset', 'do
                    'pending_row_with_file', 'finished_row_without_file', 'file_without_row', 'zero_length_file',
                    'torn_file_seen_at_start', 'delete_not_in_memory', 'delete_in_memory', 'delete_keep_row',
                    'delete_stream', 'download_written', 'publish_done', 'death_with_inflight_work', 'restart_clean',
-                   'restart_kill', 'invalid_name_ignored', 'many_unrecorded_files', 'crash_then_second_restart']
+                   'restart_kill', 'invalid_name_ignored', 'many_unrecorded_files', 'crash_then_second_restart',
+                   'non_file_entry_left', 'data_store_survived_clean_restart']
 
 MIB = be.MIB
 
@@ -143,6 +144,12 @@ def gen(run_seed, tier):
     # the daemon's BlobComponent hands every BlobManager the DHT node's data store, whose `completed_blobs` set
     # outlives an in-process stop/start of the component (own stream: earlier histories are unchanged)
     shared = stream('C18.gen.shared_store', run_seed).random() < 0.5
+    # a blob file that disappears can leave an entry of another type under its name (a symlink into a volume that is
+    # gone, a directory): "its file" is not in the blob directory then (own stream)
+    r5 = stream('C18.gen.nonfile', run_seed)
+    for op in ops:
+        if op['op'] == 'rm_file' and r5.random() < 0.3:
+            op['leave'] = r5.choice(['dangling_symlink', 'dangling_symlink', 'directory'])
     return {'family': 'faultfree' if faultfree else 'faults', 'sizes': sizes, 'ops': ops, 'shared_store': shared}
 
 
@@ -413,9 +420,14 @@ def execute(scenario, keep_trace=False):
                 cur = asyncio.current_task()
                 while True:
                     others = [t for t in asyncio.all_tasks() if t is not cur and not t.done()]
-                    if not others:
+                    if others:
+                        await asyncio.gather(*others, return_exceptions=True)
+                    elif loop._ready:
+                        # callbacks not yet run (a writer's finished-callback creates the write task): a graceful
+                        # stop lets them run, only a kill cuts them off
+                        await asyncio.sleep(0)
+                    else:
                         return
-                    await asyncio.gather(*others, return_exceptions=True)
 
             def inflight():
                 cur = asyncio.current_task()
@@ -600,6 +612,14 @@ def execute(scenario, keep_trace=False):
                         return
                     os.remove(os.path.join(dirs.blobs, h))
                     run.faults['file_removed_behind_back'] += 1
+                    if op.get('leave') == 'dangling_symlink':
+                        os.symlink(os.path.join(dirs.blobs, '..', 'unmounted-volume', h), os.path.join(dirs.blobs, h))
+                        run.faults['file_replaced_by_dangling_symlink'] += 1
+                        run.probes['non_file_entry_left'] += 1
+                    elif op.get('leave') == 'directory':
+                        os.mkdir(os.path.join(dirs.blobs, h))
+                        run.faults['file_replaced_by_directory'] += 1
+                        run.probes['non_file_entry_left'] += 1
                     st['pending_fault'] = True
                     run.ev('rm_file', n, short(h))
                 elif kind == 'stray':
